@@ -31,6 +31,12 @@ CLAIMED = {
             "In every reached state (forward up to Nmax 8-9; with undo, serialize/restore and Verify(remember) transitions up to Nmax 4-5) "
             "GetLeafPosition/GetLeafHashPositions are probed with every leaf ever added, every internal-node hash, a fresh and the zero hash, "
             "GetHash with every position in [0,2^(rows+1)+2] and four giant values, and the tracked-leaf counts are compared with the reference.", "6 C10"),
+    "C16": ("geom", "exhaustive enumeration of position-function arguments vs reference geometry",
+            "Every exported position function (Parent, LeftChild, RightChild, ParentMany, ChildMany, DetectRow, TreeRows, RootPositions, DetectOffset, "
+            "ProofPositions, and translatePos through a build-time export) is evaluated on every node of every forest height up to Hsmall, on a boundary grid "
+            "of offsets for all heights up to 63, on every leaf count up to 2^Hn plus the 2^k grid up to 2^64-1, on every node of every forest up to Noff leaves "
+            "(DetectOffset) and on every non-nested target subset of small forests in several allocated heights (ProofPositions), and compared with the reference "
+            "row geometry (itself cross-checked against math/big).", "6 C16"),
 }
 
 NOT_YET = {
@@ -69,6 +75,8 @@ def main():
         "engines": [
             {"name": "hist", "path": "/verif/vmc/mc/hist.go", "serves_properties": ["C01", "C02", "C06", "C10"],
              "kind_free_text": "explicit-state breadth-first search over operation histories; every transition is executed on the real implementation and compared with a reference model"},
+            {"name": "geom", "path": "/verif/vmc/mc/geom.go", "serves_properties": ["C16"],
+             "kind_free_text": "exhaustive enumeration of the argument space of the pure position functions (bounded heights exhaustive, boundary grid to 63 rows) against the reference geometry"},
         ],
         "checks": checks,
         "not_applicable": na,
